@@ -4,6 +4,8 @@ import Sekai.Model.Mint
 import Sekai.Model.Stake
 import Sekai.Gen.Panics
 import SekaiProofs.Lemmas.Gov
+import Sekai.Gen.App
+import Sekai.Model.App
 /-! # C06 — No reachable state or block can halt the chain  (partial: Go panics are a runtime notion)
 
 What a Lean model can carry: (1) the set of places that can panic inside block processing — explicit `panic`,
@@ -225,5 +227,13 @@ multistaking reward / slash panics, the layer2 EndBlocker panics and the UBI div
 findings (C06/C10/C13/C18/C20 keys); the `"… expected to exist"` panics are guarded by the queue invariant of C08
 (`Inv.activePending`); the remaining sites are reached only through the dynamic search. -/
 theorem panic_sites_as_reviewed : Sekai.Gen.Panics.sites = expectedSites := by decide +kernel
+
+/-! ### Application wiring (table `Gen.App`) -/
+
+/-- every module that appears in the Begin order appears in the End order and vice versa, each once (the module manager
+panics at start-up otherwise), and the zero-gas-meter decorator is in the ante chain (no out-of-gas panics in blocks) -/
+theorem block_wiring_complete :
+    (Sekai.Gen.App.beginOrder.all (Sekai.App.once Sekai.Gen.App.endOrder) && Sekai.Gen.App.endOrder.all (Sekai.App.once Sekai.Gen.App.beginOrder) &&
+     Sekai.App.once Sekai.Gen.App.anteChain "NewZeroGasMeterDecorator") = true := by decide +kernel
 
 end Sekai.Props.C06
